@@ -86,6 +86,7 @@ type Model struct {
 	cbSeen     int
 	execPanics int
 	nextLoad   func(ev Event) // handler of the next loader exit
+	unnotified     []Event      // queued executor: atomic events whose OnDeletion has not been delivered yet
 	registered     map[int]bool // keys with an in-flight call of this operation that has not returned yet
 	cancelled      map[int]bool // ... whose call was cancelled by an automatic removal of the key
 	lastExit       *Event
@@ -493,7 +494,9 @@ func (m *Model) onAtomic(ev Event) {
 			m.fail("overflow", "%s: total weight %d does not exceed the maximum %d", ev, total, m.max)
 			return
 		}
-		if now := m.t(); m.cfg.WithExp() && !cur.shortened && cur.exp < now-tickNanos && cur.writtenAt < now-tickNanos {
+		if now := m.t(); m.cfg.WithExp() && !cur.shortened && uint64(cur.w) <= m.max && cur.exp < now-tickNanos && cur.writtenAt < now-tickNanos {
+			// (an entry that alone exceeds the maximum is evicted as soon as its write event is applied,
+			// before the sweep: Overflow is a truthful cause for it)
 			// maintenance sweeps expired entries before it evicts for size: an entry that expired more
 			// than a tick ago must leave with its Expiration event, not as a size eviction
 			m.fail("sweep", "%s at %d: the entry expired at %d (written at %d), more than one tick ago, but was removed for size without an Expiration event", ev, now, cur.exp, cur.writtenAt)
@@ -732,7 +735,24 @@ func (m *Model) end() {
 		}
 	}
 	// OnDeletion must deliver exactly the atomic events (same-goroutine executor: by now).
-	if !sameEvents(m.atomics, m.deletions) {
+	if m.cfg.Queued {
+		// notifications are executor tasks: each one must match an atomic event that is still owed
+		m.unnotified = append(m.unnotified, m.atomics...)
+		for _, d := range m.deletions {
+			found := -1
+			for i, a := range m.unnotified {
+				if a.Key == d.Key && a.Val == d.Val && a.Sub == d.Sub {
+					found = i
+					break
+				}
+			}
+			if found < 0 {
+				m.fail("event", "OnDeletion delivered %s, which OnAtomicDeletion never reported (or which was already delivered)", d)
+				return
+			}
+			m.unnotified = append(m.unnotified[:found], m.unnotified[found+1:]...)
+		}
+	} else if !sameEvents(m.atomics, m.deletions) {
 		m.fail("event", "OnAtomicDeletion saw %v but OnDeletion saw %v", m.atomics, m.deletions)
 		return
 	}
